@@ -83,12 +83,15 @@ class Reporter:
 
     # ---- finish
     def finish(s, level, explanation, extra=None):
-        # instance floors
+        open_keys, fixed = load_known(s.prop)
+        # instance floors.  A rule that matched fewer instances than were confirmed by hand is broken (exit 2) - unless the same
+        # rule reports a violation that is not a listed finding: then the vanished instance is what the violation is about
+        # (e.g. the statement a rule counts was deleted and its must-happen obligation fails), and the violation is the answer.
+        unlisted = {v.rule for v in s.viol if v.key not in open_keys}
         for rule, (n, what) in s.floors.items():
             got = s.obl.get(rule, [0, 0])[0]
-            if got < n:
+            if got < n and rule not in unlisted:
                 raise AnalysisBroken('%s matched %d instances, at least %d were confirmed by hand for this tree (%s)' % (rule, got, n, what))
-        open_keys, fixed = load_known(s.prop)
         new = []
         for v in s.viol:
             if v.key in open_keys:
